@@ -137,8 +137,8 @@ PROPS = {
     "C12": {
         "level": "exploration",
         "units": [
-            U("c12", "TestStructured", T(40, 12, 300), T(600, 16, 2400)),
-            U("c12", "TestScriptedServer", T(12, 4, 300), T(150, 16, 2400)),
+            U("c12", "TestStructured", T(40, 12, 300), T(600, 16, 2400), death_is_violation=True),
+            U("c12", "TestScriptedServer", T(12, 4, 300), T(150, 16, 2400), death_is_violation=True),
             U("c12", "TestCorpus", T(None, 1, 300), T(None, 1, 300)),
             U("c12", "FuzzMembershipAnswer", None, T(None, 1, 600, fuzz="240s", cwd=H + "c12", cores=16), fuzzbuild=True),
             U("c12", "FuzzIncrementalAnswer", None, T(None, 1, 600, fuzz="240s", cwd=H + "c12", cores=16), fuzzbuild=True),
